@@ -60,7 +60,7 @@ Plan generate_plan(const std::string &prop, const std::string &tier, uint64_t ba
     if (p.mode == "seq") {
         int n = (int)p.cfg.get("nops", 40);
         std::vector<Op> ops;
-        bool swarm_faults = (prop == "C15");   // C11 is about fault-free histories; memory errors under ENOMEM belong to C15
+        bool swarm_faults = (prop == "C15") || (prop == "C02" && r.chance(1, 3));   // C02: "after every operation, whether it succeeded or failed"   // C11 is about fault-free histories; memory errors under ENOMEM belong to C15
         int frate = swarm_faults ? r.pick(std::vector<int>{3, 6, 12}) : 0;
         for (int i = 0; i < n; i++) {
             Op op = w->gen_op(r, prop, p.mode, g);
